@@ -18,6 +18,20 @@ RULES = [(r'==', '!='), (r'!=', '=='), (r'&&', '||'), (r'\|\|', '&&'), (r'\btrue
          (r'\.insert\(([a-z_.()&]+)\);', ';'), (r'\.any\(', '.all('), (r'\.all\(', '.any('), (r'\.first\(\)', '.last()'), (r'\.last\(\)', '.first()')]
 
 
+# second batch: operators for Rust idioms + statement deletion
+RULES2 = [(r'!([a-z_]+[.(])', r'\1'), (r'\b64\b', '63'), (r'\b128\b', '127'), (r'\b0\b', '1'), (r'\b1\b', '2'),
+          (r'\.iter\(\)', '.iter().rev()'), (r'KeyPrefix::Constant', 'KeyPrefix::Override'), (r'KeyPrefix::Override', 'KeyPrefix::Constant'),
+          (r'force_const\b', 'force_override'), (r'force_override\b', 'force_const'), (r'const_keys', 'override_keys'),
+          (r'override_keys', 'const_keys'), (r'\.negations\b', '.items'), (r"'~'", "'='"), (r"'='", "'~'"), (r'\.rev\(\)', ''),
+          (r'&mut st\b', 'state'), (r'\.sort\(\);', ';'), (r'\.sort_unstable\(\);', ';'), (r'Ordering::Less', 'Ordering::Greater'),
+          (r'\.min\(', '.max('), (r'\.max\(', '.min('), (r'\.skip\(1\)', '.skip(0)'), (r'\.take\(', '.skip('), (r'\.join\("([.:/])"\)', '.join("")'),
+          (r'\.to_lowercase\(\)', ''), (r'\.trim\(\)', ''), (r'\.trim_start_matches\(', '.trim_end_matches('), (r'Some\(0\)', 'Some(1)'),
+          (r'\.unwrap_or\(true\)', '.unwrap_or(false)'), (r'\.unwrap_or\(false\)', '.unwrap_or(true)'), (r'\.unwrap_or_default\(\)', '.unwrap_or_default()'),
+          (r'^(\s+)([a-z_.]+\([^;{}]*\)\??;)\s*$', r'\1'), (r'^(\s+)(self\.[a-z_.]+(\([^;{}]*\))?\s*=\s*[^;{}]+;)\s*$', r'\1'),
+          (r'^(\s+)([a-z_]+\.[a-z_]+\([^;{}]*\)\??;)\s*$', r'\1'), (r'^(\s+)(return Err\([^;{}]*\);)\s*$', r'\1'),
+          (r' \+= ', ' -= '), (r' -= ', ' += '), (r'\.clone_from\(', '.clone_from('), (r'\.is_ok\(\)', '.is_err()'), (r'\.is_err\(\)', '.is_ok()')]
+
+
 def sh(cmd, cwd=None, timeout=900):
     return subprocess.run(cmd, shell=True, cwd=cwd, stdout=subprocess.PIPE, stderr=subprocess.STDOUT, timeout=timeout)
 
@@ -38,22 +52,24 @@ def code_lines(path):
     return src, out
 
 
-def gen(limit):
+def gen(limit, rules=RULES, tag='m', seed=7):
     os.makedirs(OUT, exist_ok=True)
     if not os.path.exists(WT):
         sh('git -C /repo worktree add -q --detach %s HEAD' % WT)
-    rnd = random.Random(7)
+    rnd = random.Random(seed)
     cands = []
     for f in FILES:
         src, lines = code_lines(os.path.join(WT, f))
         for i in lines:
-            for pat, rep in RULES:
+            for pat, rep in rules:
                 for m in re.finditer(pat, src[i]):
-                    cands.append((f, i, m.start(), m.end(), m.expand(rep) if '\\' in rep else rep))
+                    new = m.expand(rep) if '\\' in rep else rep
+                    if new != m.group(0):
+                        cands.append((f, i, m.start(), m.end(), new))
     rnd.shuffle(cands)
     done = 0
-    seen = len(open('/tmp/mut/gen.log').read().split('\n')) - 1 if os.path.exists('/tmp/mut/gen.log') else 0
-    log = open('/tmp/mut/gen.log', 'a')
+    seen = len(open('/tmp/mut/gen%s.log' % tag).read().split('\n')) - 1 if os.path.exists('/tmp/mut/gen%s.log' % tag) else 0
+    log = open('/tmp/mut/gen%s.log' % tag, 'a')
     for n, (f, i, a, b, rep) in enumerate(cands[:limit]):
         if n < seen:
             continue   # resume an interrupted run
@@ -68,7 +84,7 @@ def gen(limit):
         ok = txt.count('test result: ok') >= 3 and 'FAILED' not in txt and 'error' not in txt.split('test result')[0][-2000:]
         if ok:
             d = sh('git diff', cwd=WT).stdout.decode()
-            open(os.path.join(OUT, 'm%04d.diff' % n), 'w').write(d)
+            open(os.path.join(OUT, '%s%04d.diff' % (tag, n)), 'w').write(d)
             done += 1
         log.write('%04d %s:%d %r -> %r : %s\n' % (n, f, i + 1, orig.strip()[:80], src[i].strip()[:80], 'SURVIVES-SUITE' if ok else 'killed/uncompilable'))
         log.flush()
@@ -97,5 +113,7 @@ def check():
 if __name__ == '__main__':
     if sys.argv[1] == 'gen':
         gen(int(sys.argv[2]) if len(sys.argv) > 2 else 200)
+    elif sys.argv[1] == 'gen2':
+        gen(int(sys.argv[2]) if len(sys.argv) > 2 else 300, rules=RULES2, tag='s', seed=11)
     else:
         check()
